@@ -55,8 +55,12 @@ SomeD1 == {CNode("U", 16, "indef", <<PNode("U", 2, "min", <<5>>)>>), CNode("C", 
            CNode("A", 31, "min", <<PNode("C", 31, "min", <<>>), PNode("U", 4, "min", <<255, 0>>)>>)}
 D2 == {CNode(t[1], t[2], lf, k) : t \in {<<"U", 16>>, <<"C", 1>>}, lf \in {"min", "indef"}, k \in KidSeqs(SomeD1 \cup {PNode("U", 2, "min", <<5>>)})}
 D3 == {CNode("U", 16, lf, <<x>>) : lf \in {"min", "indef"}, x \in {CNode("C", 1, l2, <<y>>) : l2 \in {"min", "indef"}, y \in SomeD1}}
+\* long primitives followed by siblings: the printed line length sweeps over every residue of the tools' I/O chunk size
+LongSweep == IF Rich THEN {<<CNode("U", 16, "min", <<PNode("U", 4, "min", Zeros(n)), PNode("U", 2, "min", <<5>>), PNode("U", 5, "min", <<>>)>>)>> : n \in 1300..2700}
+             ELSE {<<CNode("U", 16, "min", <<PNode("U", 4, "min", Zeros(n)), PNode("U", 2, "min", <<5>>)>>)>> : n \in {1364, 1365, 1366, 2719, 2730}}
 Forests == {<<n>> : n \in Prims \cup D1 \cup D2 \cup D3}
            \cup {<<a, b>> : a \in SomeD1 \cup SomePrims, b \in SomeD1 \cup SomePrims}
+           \cup LongSweep
 
 Byte(x) == x % 256
 MutPositions(b) == IF Len(b) <= 12 THEN DOMAIN b ELSE (1..8) \cup ((Len(b) - 3)..Len(b))
@@ -65,6 +69,7 @@ Mutants(b) == {SubSeq(b, 1, k) : k \in 0..(IF Len(b) <= 24 THEN Len(b) - 1 ELSE 
 
 VARIABLES forest, mode, l
 Init == /\ forest \in Forests /\ mode \in {"roundtrip", "mutate"} /\ l = 0
+        /\ (mode = "mutate" => forest \notin LongSweep)
 Next == FALSE /\ UNCHANGED <<forest, mode, l>>
 \* model-level: the first field record starts at 0, offsets increase, and every record lies within the octets
 FieldsSound == LET f == Fields(forest) s == Ser(forest) IN
